@@ -322,6 +322,19 @@ def run(ctx):
         for i, a in enumerate(spec["acts"]):
             names[a["name"]] = i
         comp_names = [a.name for a in res.problem.actions]
+        ev_names = [e.name for e in res.problem.events]
+        # which compiled transitions are plan actions (what Model/DA2P.v assumes about _compile_durative_action):
+        # a fixed-duration action has the EVENT <a>_end and no <a>_first_end action; a variable one has the action
+        for a in spec["acts"]:
+            has_first_end = any(re.match(r"^%s_first_end(_\d+)?$" % a["name"], n) for n in comp_names)
+            has_end_event = any(re.match(r"^%s_end(_\d+)?$" % a["name"], n) for n in ev_names)
+            expect = {"inst": (False, False), "fixed": (False, True),
+                      "var": (True, a.get("delay") != 0)}[a["kind"]]
+            if (has_first_end, has_end_event) != expect:
+                ctx.fail("oracle", "C29: compiled transitions of %s (%s) are not the ones the model assumes: first_end action=%s, "
+                         "end event=%s" % (a["name"], a["kind"], has_first_end, has_end_event), ["da2p", "compiled-shape"],
+                         {"spec": dump(spec), "compiled_actions": comp_names, "compiled_events": ev_names}, False)
+            stats["shape_checked_" + a["kind"]] += 1
 
         def decode_c(ai_):
             nm = ai_.action.name
